@@ -15,9 +15,13 @@ MUTANTS = [
      "edits": [(ALG, "scratch = np.zeros((nT, out_len), dtype=p.dtype)   # private copies", "scratch = np.zeros((max(nT - 1, 1), out_len), dtype=p.dtype)")]},
     {"id": "c06-reduce-minus-one", "property": "C06", "what": "_poly_diff reduction skips the last thread's row",
      "edits": [(ALG, "    dp = np.zeros(out_size, dtype=p.dtype)\n    for tid in range(nT):", "    dp = np.zeros(out_size, dtype=p.dtype)\n    for tid in range(max(nT - 1, 1)):")]},
-    {"id": "c06-tid-hoisted", "property": "C06", "what": "_poly_diff reads the thread id once, outside the parallel loop",
+    {"id": "c06-tid-hoisted-diff-ok", "property": "C06", "expect": "quiet",
+     "what": "NON-ALARM: _poly_diff reads the thread id once outside the loop -- all threads share row 0, but d/dx_v maps monomials to slots injectively, so no two iterations touch the same cell",
      "edits": [(ALG, "    scratch_exp = np.empty(6, dtype=np.int64)           # <- NEW  (one per thread chunk)\n    for i in prange(p.shape[0]):\n        tid = get_thread_id()\n",
                 "    scratch_exp = np.empty(6, dtype=np.int64)\n    tid = get_thread_id()\n    for i in prange(p.shape[0]):\n")]},
+    {"id": "c06-tid-hoisted-mul", "property": "C06", "what": "_poly_mul reads the thread id once, outside the parallel loop",
+     "edits": [(ALG, "    scratch = np.zeros((nT, out_len), dtype=p.dtype)   # private copies\n\n    for i in prange(p.shape[0]):\n        tid = get_thread_id()          # -> row in scratch\n",
+                "    scratch = np.zeros((nT, out_len), dtype=p.dtype)   # private copies\n    tid = get_thread_id()\n    for i in prange(p.shape[0]):\n")]},
     {"id": "c06-shared-ks", "property": "C06", "what": "_poly_mul hoists the exponent-sum buffer out of the parallel loop (shared scratch array)",
      "edits": [(ALG, "    scratch = np.zeros((nT, out_len), dtype=p.dtype)   # private copies\n", "    scratch = np.zeros((nT, out_len), dtype=p.dtype)   # private copies\n    ks = np.empty(N_VARS, dtype=np.int64)\n"),
                (ALG, "            ks = np.empty(N_VARS, dtype=np.int64)\n            for m in range(N_VARS):", "            for m in range(N_VARS):")]},
@@ -25,8 +29,8 @@ MUTANTS = [
      "edits": [(OPS, "@njit(fastmath=FASTMATH, cache=False)\ndef _polynomial_jacobian(", "@njit(fastmath=FASTMATH, cache=False, parallel=True)\ndef _polynomial_jacobian(")]},
     {"id": "c06-diff-coeff", "property": "C06", "what": "_poly_diff multiplies by (exp-1) instead of exp",
      "edits": [(ALG, "scratch[tid, idx] += coeff * exp  # race-free write", "scratch[tid, idx] += coeff * (exp - 1)")]},
-    {"id": "c06-5bit-pack", "property": "C06", "what": "_pack_multiindex masks k[5] with 5 bits (exponents >= 32 collide)",
-     "edits": [(BASE, "        | ((k[5] & 0x3F) << 24)\n    )\n    return np.uint32(packed) # Ensure", "        | ((k[5] & 0x1F) << 24)\n    )\n    return np.uint32(packed) # Ensure")]},
+    {"id": "c06-4bit-pack", "property": "C06", "what": "_pack_multiindex masks k[5] with 4 bits (exponents >= 16 collide)",
+     "edits": [(BASE, "        | ((k[5] & 0x3F) << 24)\n    )\n    return np.uint32(packed) # Ensure", "        | ((k[5] & 0x0F) << 24)\n    )\n    return np.uint32(packed) # Ensure")]},
     {"id": "c06-integrate-parallel-ok", "property": "C06", "expect": "quiet",
      "what": "NON-ALARM: _poly_integrate parallelised with a direct ip[idx] += (injective slot map, no conflict)",
      "edits": [(ALG, "@njit(fastmath=FASTMATH, cache=False)\ndef _poly_integrate(", "@njit(fastmath=FASTMATH, cache=False, parallel=True)\ndef _poly_integrate("),
